@@ -117,6 +117,8 @@ def main():
             if idx in other and other[idx].split('\t')[0] != f[0]:
                 pr.append('URI and IRI families disagree on ASCII input: %r vs %r' % (out, unhex(other[idx].split('\t')[0])))
         classes.add((fam, branch, spec.parse(b)[1] is None, spec.parse(b)[2] == b'', tuple(sorted(set(x for x in segs(Rf[2]) if x in (b'', b'.', b'..')))), Rf[3] is None))
+        if kn and not pr and f[1] != mo:
+            pr.append('deviates from RFC 3986 5.2 inside the recorded class %s, but NOT in the recorded way: result %r, recorded behaviour (model) %r, RFC target %r' % (kn, unhex(f[0]) if f[0] != 'PANIC' else f[0], unhex(mo) if mo not in ('PANIC', 'ERR') else mo, target))
         if kn and not pr:
             known_seen[kn] = known_seen.get(kn, 0) + 1
             if kn in known_listed:
